@@ -322,18 +322,30 @@ CopyOf(F) ==
     [] F.kind = "seq"   -> [kind |-> "seq", bs |-> F.bs, fs |-> [j \in 1..Len(F.fs) |-> CopyOf(F.fs[j])], names |-> F.names]
     [] IsTuple(F)       -> [kind |-> F.kind, fs |-> [j \in 1..Len(F.fs) |-> CopyOf(F.fs[j])]]
 LifeCycle(F, lc) == IF lc = "none" THEN F ELSE CopyOf(F)
-\* Which operations a filter object offers.  On the pinned tree MeanFilterBlocked::convert cannot be instantiated at
-\* all (it casts the Tiny::Vector volume to a scalar) and UnitFilterBlocked::convert from ANOTHER data/index type
-\* cannot either (it reads the private _ignore_nans of the other instantiation); the in-place clone(other, mode) of
-\* FilterChain, FilterSequence and PowerFilter cannot be instantiated with any sub-filter (they pass a filter vector
-\* resp. use operator-> on a filter).  These are compile-time defects, recorded in the report; the calls do not exist.
-RECURSIVE HasBlocked(_, _)
+\* Which operations a filter object offers.  Some of them cannot be instantiated on every revision of the library
+\* (compile-time defects of the pinned tree, fixes in /verif/build/fixes/c06_*.diff); `caps` is the set of capabilities
+\* the check found by TRY-COMPILING each call against the tree under verification:
+\*   "meanb_convert"        MeanFilterBlocked::convert            (cast the Tiny::Vector volume to a scalar)
+\*   "unitb_convert_other"  UnitFilterBlocked::convert from ANOTHER data/index type (read the private _ignore_nans)
+\*   "chain_clone_into"     FilterChain::clone(other, mode)       (passed a filter vector to the sub-filter's clone)
+\*   "power_clone_into"     PowerFilter::clone(other, mode)       (the same)
+\*   "seq_clone_into"       FilterSequence::clone(other, mode)    (used operator-> on a filter)
+\* A call that does not compile does not exist and is not requested; every call that compiles is.
+AllCaps == {"meanb_convert", "unitb_convert_other", "chain_clone_into", "power_clone_into", "seq_clone_into"}
+RECURSIVE HasBlocked(_, _), CloneIntoOffered(_, _)
 HasBlocked(F, kind) == IF IsAtom(F) THEN F.kind = kind /\ F.bs >= 2 ELSE \E j \in 1..Len(F.fs) : HasBlocked(F.fs[j], kind)
-Offered(F, lc) ==
-  CASE lc \in {"convert_same", "convert_other"} /\ HasBlocked(F, "mean") -> FALSE
-    [] lc = "convert_other" /\ HasBlocked(F, "unit") -> FALSE
-    [] lc = "clone_into" -> IsAtom(F) \/ (F.kind = "tuple" /\ \A j \in 1..Len(F.fs) : IsAtom(F.fs[j]))
+CloneIntoOffered(F, caps) ==
+  CASE IsAtom(F)        -> TRUE
+    [] F.kind = "chain" -> "chain_clone_into" \in caps
+    [] F.kind = "seq"   -> "seq_clone_into" \in caps
+    [] F.kind = "power" -> "power_clone_into" \in caps /\ \A j \in 1..Len(F.fs) : CloneIntoOffered(F.fs[j], caps)
+    [] F.kind = "tuple" -> \A j \in 1..Len(F.fs) : CloneIntoOffered(F.fs[j], caps)
+OfferedWith(F, lc, caps) ==
+  CASE lc \in {"convert_same", "convert_other"} /\ HasBlocked(F, "mean") /\ "meanb_convert" \notin caps -> FALSE
+    [] lc = "convert_other" /\ HasBlocked(F, "unit") /\ "unitb_convert_other" \notin caps -> FALSE
+    [] lc = "clone_into" -> CloneIntoOffered(F, caps)
     [] OTHER -> TRUE
+Offered(F, lc) == OfferedWith(F, lc, {})      \* the pinned tree: none of the conditional calls exists
 
 (***************************************************************************)
 (* Value palettes shared by the generators (FiltersVec, FiltersMat): small  *)
